@@ -862,6 +862,9 @@ func (e *Exec) evalCall(ctx *evalCtx, x *ECall, want types.Type) Val {
 			cs = append(cs, e.eval(sub, c.Expr, boolT).T[0])
 		}
 		return Val{T: []string{tAnd(cs...)}, Typ: boolT}
+	case "chancap":
+		c := arg(0, nil)
+		return Val{T: []string{app("select", e.curArr(ctx.st, "chan#cap", arr(SInt, SBV(64))), c.T[0])}, Typ: types.Typ[types.Int]}
 	case "visited":
 		vis, ok := ctx.st.ghost["$visited"]
 		if !ok {
